@@ -21,11 +21,18 @@ M32 = 0xFFFFFFFF
 
 # ------------------------------------------------------------------ designs
 
-def _mk_top_method_port():
-  from pymtl3 import Component, Wire, Bits32, update, update_ff, method_port, M, U
+def _mk_top_method_port(fl=False):
+  from pymtl3 import Component, Wire, Bits32, update, update_ff, update_once, method_port, blocking, M, U
+
+  class OLMem(Component):
+    def construct(s): pass
+    @blocking
+    def read(s, addr):
+      return addr
 
   class OLTop(Component):
     def construct(s):
+      if fl: s.mem = OLMem()
       s.element = None
       s.count = Wire(Bits32)
       s.amp = Wire(Bits32)
@@ -39,13 +46,23 @@ def _mk_top_method_port():
       def up_amp():
         s.amp @= s.count * 100
 
-      @update
-      def up_compose_in():
-        if s.element:
-          s.value @= s.amp + s.element
-          s.element = None
-        else:
-          s.value @= Bits32(-1)
+      if fl:
+        @update_once
+        def up_compose_in():
+          zero = s.mem.read(0)          # a blocking call: the block is scheduled through its greenlet wrapper
+          if s.element:
+            s.value @= s.amp + s.element + zero
+            s.element = None
+          else:
+            s.value @= Bits32(-1)
+      else:
+        @update
+        def up_compose_in():
+          if s.element:
+            s.value @= s.amp + s.element
+            s.element = None
+          else:
+            s.value @= Bits32(-1)
 
       s.add_constraints(M(s.push) < U(up_compose_in), U(up_compose_in) < M(s.pull))
 
@@ -122,7 +139,7 @@ class LoopModel:
     return None
 
 
-def _mk_connected_callee():
+def _mk_connected_callee(chain=False):
   """a top-level callee port CONNECTED to a child's method; an internal block calls another method of that child which the child
   orders after the first one: M(q.enq) < M(q.deq) has to order top.enq before the block"""
   from pymtl3 import Component, CalleePort, update_once, method_port, M, U
@@ -130,7 +147,12 @@ def _mk_connected_callee():
   class OLQ(Component):
     def construct(s):
       s.val = None
-      s.add_constraints(M(s.enq) < M(s.deq))
+      if chain: s.add_constraints(M(s.enq) < M(s.peek), M(s.peek) < M(s.deq))     # nobody calls peek
+      else: s.add_constraints(M(s.enq) < M(s.deq))
+
+    @method_port
+    def peek(s):
+      return s.val
 
     @method_port
     def enq(s, v):
@@ -243,7 +265,9 @@ class QueueModel:
 def designs():
   out = [("OLTop", _mk_top_method_port, TopModel, [("call", "push", 7), ("call", "push", 9), ("call", "pull")]),
          ("OLLoop", _mk_loop, LoopModel, [("call", "push", 3), ("call", "push", 9), ("call", "pull")]),
-         ("OLConn", _mk_connected_callee, ConnModel, [("call", "enq", 5), ("call", "enq", 6), ("call", "pull")])]
+         ("OLConn", _mk_connected_callee, ConnModel, [("call", "enq", 5), ("call", "enq", 6), ("call", "pull")]),
+         ("OLChain", lambda: _mk_connected_callee(True), ConnModel, [("call", "enq", 5), ("call", "enq", 6), ("call", "pull")]),
+         ("OLTopFL", lambda: _mk_top_method_port(True), TopModel, [("call", "push", 7), ("call", "push", 9), ("call", "pull")])]
   for kind in ("PipeQueueCL", "BypassQueueCL", "NormalQueueCL"):
     for cap in (1, 2):
       out.append((f"{kind}({cap})", (lambda k=kind, c=cap: _mk_queue(k, c)), (lambda k=kind, c=cap: QueueModel(k, c)),
@@ -261,6 +285,8 @@ def run_sequence(factory, mk_model, seq, tiebreak=0):
   top = factory()
   top.elaborate()
   top.apply(GenDAGPass())
+  from pymtl3.passes.sim.WrapGreenletPass import WrapGreenletPass
+  top.apply(WrapGreenletPass())                 # as in AutoTickSimPass: blocks that make blocking calls run inside greenlets
   from vt import seams
   try:
     # the pass shuffles the vertex list before its depth-first search: the tie-break is chosen here (element tiebreak % n first ... )
@@ -354,11 +380,89 @@ def closure(req):
   return _closure_cache[key]
 
 
+def cyclic_designs():
+  """designs whose dependency graph has a cycle that cannot be iterated: OpenLoopCLPass has to refuse them with UpblkCyclicError"""
+  from pymtl3 import Component, Wire, Bits8, update, update_once, method_port, non_blocking, M, U, WR
+
+  class OnceInCycle(Component):                       # an update_once block inside a value cycle
+    def construct(s):
+      s.x = Wire(Bits8); s.y = Wire(Bits8)
+      @update_once
+      def up_a(): s.x @= s.y + 1
+      @update
+      def up_b(): s.y @= s.x & 1
+    @method_port
+    def pull(s): return int(s.x)
+    def line_trace(s): return ""
+
+  class OrderingCycle(Component):                     # a cycle closed by a pure ordering constraint
+    def construct(s):
+      s.x = Wire(Bits8); s.y = Wire(Bits8)
+      @update
+      def up_a(): s.x @= 1
+      @update
+      def up_b(): s.y @= 2
+      s.add_constraints(WR(s.x) < U(up_b), U(up_b) < U(up_a))
+    @method_port
+    def pull(s): return int(s.y)
+    def line_trace(s): return ""
+
+  class MethodInCycle(Component):                     # M(pull) < up_a -> x -> up_b < M(pull)
+    def construct(s):
+      s.x = Wire(Bits8); s.y = Wire(Bits8)
+      @update
+      def up_a(): s.x @= 1
+      @update
+      def up_b(): s.y @= s.x
+      s.add_constraints(M(s.pull) < U(up_a), U(up_b) < M(s.pull))
+    @method_port
+    def pull(s): return int(s.y)
+    def line_trace(s): return ""
+
+  class GuardInCycle(Component):                      # M(enq) < up_a < M(enq.rdy), and rdy comes before the method
+    def construct(s):
+      s.x = Wire(Bits8)
+      @update
+      def up_a(): s.x @= 1
+      s.add_constraints(M(s.enq) < U(up_a), U(up_a) < M(s.enq.rdy))
+    @non_blocking(lambda s: True)
+    def enq(s, v): pass
+    def line_trace(s): return ""
+
+  return [("OnceInCycle", OnceInCycle), ("OrderingCycle", OrderingCycle), ("MethodInCycle", MethodInCycle), ("GuardInCycle", GuardInCycle)]
+
+
+def check_cyclic(acc):
+  from pymtl3.passes.sim.GenDAGPass import GenDAGPass
+  from pymtl3.passes.sim.WrapGreenletPass import WrapGreenletPass
+  from pymtl3.passes.autotick.OpenLoopCLPass import OpenLoopCLPass
+  from pymtl3.dsl.errors import UpblkCyclicError
+  from vt import seams
+  for name, cls in cyclic_designs():
+    for tb in TIEBREAKS:
+      top = cls(); top.elaborate()
+      got = "accepted"
+      try:
+        top.apply(GenDAGPass()); top.apply(WrapGreenletPass())
+        with seams.shuffle_seam(lambda n: tb % n):
+          top.apply(OpenLoopCLPass(print_line_trace=False))
+      except UpblkCyclicError:
+        got = None
+      except Exception as ex:
+        got = f"{type(ex).__name__}: {str(ex)[:100]}"
+      acc.count("openloop_executions"); acc.count("executions")
+      if got:
+        acc.violation(f"openloop:{name}:cycle-not-reported", dict(mode="openloop-cyclic", design=name, tiebreak=tb), "UpblkCyclicError", got, name)
+        break
+    acc.count("openloop_designs")
+
+
 TIEBREAKS = tuple(range(8))      # every element of the (at most 8) vertices of these designs moved to the end of the shuffled list once
 
 
 def explore(tier, acc, only=None):
   L = 4 if tier == "quick" else 5
+  if not only: check_cyclic(acc)
   for name, factory, mk_model, letters in designs():
     if only and only != name: continue
     n = 0
@@ -379,6 +483,10 @@ def explore(tier, acc, only=None):
 
 
 def replay(case):
+  if case.get("mode") == "openloop-cyclic":
+    from vt.acc import Acc
+    acc = Acc(); check_cyclic(acc)
+    return [(v["sig"], v["expected"], v["observed"], v["msg"]) for v in acc.violations if v["case"]["design"] == case["design"]][:2]
   for name, factory, mk_model, letters in designs():
     if name == case["design"]:
       events, fails = run_sequence(factory, mk_model, [tuple(x) for x in case["seq"]], case.get("tiebreak", 0))
